@@ -89,10 +89,14 @@ def expand(t, sigs):
         return ["sl", ["sw", ["o2", ">=", e, ["c", 0, 1, False]], [[["0"], ["o1", "-", e]], [None, e]]], 0, w]
     if k == "d_shl":
         e, n = t[1], t[2]
+        if n < 0:
+            return expand(["d_shr", e, -n], sigs)
         c = ["cat", [["c", 0, n, False], e]]
         return ["o1", "s", c] if pyshape(e, sigs)[1] else c
     if k == "d_shr":
         e, n = t[1], t[2]
+        if n < 0:
+            return expand(["d_shl", e, -n], sigs)
         w, s = pyshape(e, sigs)
         if s:
             n2 = w - 1 if n >= w else n
@@ -127,6 +131,25 @@ def expand(t, sigs):
     if k == "d_step":
         e, start, step, count = t[1], t[2], t[3], t[4]
         return ["cat", [["sl", e, start + j * step, start + j * step + 1] for j in range(count)]]
+    if k == "d_key":
+        e, key = t[1], t[2]
+        w = pyshape(e, sigs)[0]
+        start, stop, step = slice(*key).indices(max(0, w))
+        if step == 1:
+            return ["sl", e, start, stop]
+        return ["cat", [["sl", e, i, i + 1] for i in range(start, stop, step)]]
+    if k in ("d_bsel", "d_wsel"):
+        e, off, w = t[1], t[2], t[3]
+        stride = 1 if k == "d_bsel" else w
+        if off[0] == "c":
+            ow, osg = off[2], off[3]
+            v = off[1] & ((1 << ow) - 1)
+            if osg and ow > 0 and v >> (ow - 1):
+                v -= 1 << ow
+            lo, hi = (v, v + w) if k == "d_bsel" else (v * w, (v + 1) * w)
+            if hi <= pyshape(e, sigs)[0]:
+                return expand(["d_key", e, [lo, hi, None]], sigs)
+        return ["pt", e, off, w, stride]
     if k == "d_mux":
         sel, a, b = t[1], t[2], t[3]
         return ["sw", sel, [[[_binpat(pyshape(sel, sigs)[0], 0)], b], [None, a]]]
@@ -148,9 +171,9 @@ def coq_expr(t, sigs):
         if k == "d_abs":
             return f"(mk_abs {ce(t[1])})"
         if k == "d_shl":
-            return f"(mk_shift_left {ce(t[1])} {z(t[2])})"
+            return f"(mk_shl {ce(t[1])} {z(t[2])})"
         if k == "d_shr":
-            return f"(mk_shift_right {ce(t[1])} {z(t[2])})"
+            return f"(mk_shr {ce(t[1])} {z(t[2])})"
         if k == "d_rol":
             return f"(mk_rotate_left {ce(t[1])} {z(t[2])})"
         if k == "d_ror":
@@ -165,6 +188,13 @@ def coq_expr(t, sigs):
             return f"(mk_slice {ce(t[1])} {z(t[2])} {z(t[3])})"
         if k == "d_step":
             return f"(mk_step_slice {ce(t[1])} {z(t[2])} {z(t[3])} {t[4]}%nat)"
+        if k == "d_key":
+            o = lambda x: "None" if x is None else f"(Some {z(x)})"
+            return f"(oget (mk_getitem_key {ce(t[1])} (Key {o(t[2][0])} {o(t[2][1])} {o(t[2][2])})))"
+        if k == "d_bsel":
+            return f"(oget (mk_bit_select {ce(t[1])} {ce(t[2])} {z(t[3])}))"
+        if k == "d_wsel":
+            return f"(oget (mk_word_select {ce(t[1])} {ce(t[2])} {z(t[3])}))"
         if k == "d_mux":
             return f"(mk_mux {ce(t[1])} {ce(t[2])} {ce(t[3])})"
         if k == "d_array":
@@ -222,6 +252,12 @@ def build(t, sigobjs):
             return b(t[1])[t[2]:t[3]]
         if k == "d_step":
             return b(t[1])[slice(*t[5])]         # t[5]: the Python slice as [start, stop, step]
+        if k == "d_key":
+            return b(t[1])[slice(*t[2])]
+        if k == "d_bsel":
+            return b(t[1]).bit_select(b(t[2]), t[3])
+        if k == "d_wsel":
+            return b(t[1]).word_select(b(t[2]), t[3])
         if k == "d_mux":
             return Mux(b(t[1]), b(t[2]), b(t[3]))
         if k == "d_array":
@@ -286,13 +322,32 @@ class Gen:
         e = self.expr(d - 1)
         w, sg = pyshape(e, self.sigs)
         w = max(0, w)
-        c = r.randrange(12)
+        c = r.randrange(15)
         if c == 0:
             return ["d_abs", e]
         if c == 1:
-            return ["d_shl", e, r.randrange(0, 5)]
+            return ["d_shl", e, r.randrange(-3, 5)]
         if c == 2:
-            return ["d_shr", e, r.randrange(0, w + 3)]
+            return ["d_shr", e, r.randrange(-3, w + 3)]
+        if c == 12:
+            # any Python slice object (None bounds, any non-zero step); a step-1 form with start > stop is an IndexError
+            key = [r.choice((None, r.randrange(-w - 2, w + 3))), r.choice((None, r.randrange(-w - 2, w + 3))),
+                   r.choice((None, 1, -1, 2, -2, 3, -3, 5))]
+            a, b, st = slice(*key).indices(w)
+            if st == 1 and a > b and not self.malformed:
+                key[0], key[1] = None, None
+            return ["d_key", e, key]
+        if c in (13, 14):
+            # bit_select / word_select with a constant or a variable offset; constant offsets near the fold boundary
+            pw = r.randrange(0 if c == 13 else 1, 5)
+            if r.random() < 0.6:
+                ow = r.randrange(1, 4)
+                lim = (w - pw) if c == 13 else (w // pw - 1)
+                v = min((1 << ow) - 1, max(0, lim + r.randrange(-1, 2)))
+                off = ["c", v, ow, False]
+            else:
+                off = self.unsigned_small(d - 1, 3)
+            return ["d_bsel" if c == 13 else "d_wsel", e, off, pw]
         if c == 3:
             return ["d_rol", e, r.randrange(-2 * w - 1, 2 * w + 2)]
         if c == 4:
